@@ -8,7 +8,7 @@ use crate::{
 use bumpalo::Bump;
 use codespan_reporting::term::{self, Config};
 use laythe_core::{
-  hooks::GcHooks, module::{Import, ImportError, Module, ModuleInsertError, Package}, object::{Class, Fun, LyStr}, Allocator, ObjRef, Ref
+  constants::SELF, hooks::GcHooks, module::{Import, ImportError, Module, ModuleInsertError, Package}, object::{Class, Fun, LyStr}, Allocator, ObjRef, Ref
 };
 use std::path::PathBuf;
 
@@ -150,7 +150,11 @@ impl Vm {
       Some(existing_package) => match existing_package.import(import) {
         Ok(module) => ImportResult::Loaded(module),
         Err(err) => match err {
-          ImportError::ModuleDoesNotExist => self.load_missing_module(existing_package, import),
+          // only the program's own package is backed by files next to the script
+          ImportError::ModuleDoesNotExist if &*import.package() == SELF => {
+            self.load_missing_module(existing_package, import)
+          },
+          ImportError::ModuleDoesNotExist => ImportResult::NotFound,
           ImportError::PackageDoesNotMatch => panic!("Unexpected package mismatch"),
           _ => unreachable!(),
         },
